@@ -2,8 +2,10 @@ package props
 
 import (
 	"crypto/ed25519"
+	"filippo.io/edwards25519"
 	"fmt"
 	"math/big"
+	"sort"
 	"strings"
 
 	"verifsim/cluster"
@@ -438,6 +440,56 @@ func advBuild(r *crun, rng *core.Rng, kind string, label string) *advTx {
 			break
 		}
 		a.class = "authorization"
+	case "compensating-signature-errors":
+		// two signatures of one transaction are each invalid, but their errors cancel in any check that
+		// only looks at an unweighted combination of them (S halves swapped, or +d / -d)
+		var other *cluster.Coin
+		if rng.Chance(0.5) {
+			other = pick(&coin.Asset, coin, 0)
+		}
+		if other != nil {
+			sum := new(big.Int).Add(total, units(other.Amount))
+			mk([]*cluster.Coin{coin, other}, []cluster.OutSpec{{Owners: []int{1}, Threshold: 1, Amount: amountFromUnits(sum)}}, nil)
+		} else {
+			c3 := pick(nil, nil, 3)
+			if c3 == nil || c3.Threshold < 2 {
+				return nil
+			}
+			mk([]*cluster.Coin{c3}, []cluster.OutSpec{{Owners: []int{0}, Threshold: 1, Amount: c3.Amount}}, nil)
+		}
+		var sigs []*crypto.Signature
+		for _, mp := range a.tx.SignaturesMap {
+			ks := make([]int, 0, len(mp))
+			for k := range mp {
+				ks = append(ks, int(k))
+			}
+			sort.Ints(ks)
+			for _, k := range ks {
+				sigs = append(sigs, mp[uint16(k)])
+			}
+		}
+		if len(sigs) < 2 {
+			return nil
+		}
+		x1, x2 := sigs[0], sigs[1]
+		if rng.Chance(0.5) {
+			var t [32]byte
+			copy(t[:], x1[32:])
+			copy(x1[32:], x2[32:])
+			copy(x2[32:], t[:])
+		} else {
+			s1, e1 := edwards25519.NewScalar().SetCanonicalBytes(x1[32:])
+			s2, e2 := edwards25519.NewScalar().SetCanonicalBytes(x2[32:])
+			if e1 != nil || e2 != nil {
+				return nil
+			}
+			var db [64]byte
+			rng.Bytes(db[:])
+			d, _ := edwards25519.NewScalar().SetUniformBytes(db[:])
+			copy(x1[32:], edwards25519.NewScalar().Add(s1, d).Bytes())
+			copy(x2[32:], edwards25519.NewScalar().Subtract(s2, d).Bytes())
+		}
+		a.class = "authorization"
 	case "payload-changed-after-signing":
 		mk([]*cluster.Coin{coin}, outs, nil)
 		sigs := a.tx.SignaturesMap
@@ -537,4 +589,4 @@ func signUTXOLoose(signed *common.SignedTransaction, utxo *common.UTXO, accounts
 
 var advValidKinds = []string{"valid", "valid", "valid-two-inputs", "valid-aggregate"}
 var advConservationKinds = []string{"sum-plus-one", "sum-minus-one", "huge-outputs", "wrapping-outputs", "aliased-input-index", "two-assets", "duplicate-input", "nonexistent-input", "deposit-amount-mismatch"}
-var advAuthorizationKinds = []string{"wrong-signer", "below-threshold", "no-signatures", "signature-index-out-of-range", "flipped-signature-bit", "payload-changed-after-signing", "swapped-signature-maps", "aggregate-missing-signer", "aggregate-shifted-signers"}
+var advAuthorizationKinds = []string{"compensating-signature-errors", "wrong-signer", "below-threshold", "no-signatures", "signature-index-out-of-range", "flipped-signature-bit", "payload-changed-after-signing", "swapped-signature-maps", "aggregate-missing-signer", "aggregate-shifted-signers"}
